@@ -90,7 +90,7 @@ func (c *Ctx) checkCompressedClose() {
 			L.Check(okD, "close-order", rw.label, "delegates to buf", c.P.Pos(rw.F.Pos()), m+" goes to the buffered writer that Close flushes", m+" does not write through the buffer that Close flushes")
 		}
 	}
-	L.Floor("close-order", 6, "2 writers x (Close + Write + WriteString)")
+	L.Floor("close-order", 3, "2 writers x (Close + Write + WriteString) (floor = half of the instances on the pinned tree: a clean-up may merge instances, a rule that sees nothing must still fail)")
 }
 
 // ---------------------------------------------------------------------------
@@ -425,7 +425,7 @@ func (c *Ctx) checkSniffers() {
 		L.Check(got == rel, "sniffer-writer", r.label, fmt.Sprintf("first byte %q", b), c.P.Pos(r.F.Pos()), fmt.Sprintf("output starts with %q; auto-detection selects %s", firstN(s, 12), got),
 			fmt.Sprintf("output starts with %q; auto-detection hands it to the %s parser, not to %s", firstN(s, 12), got, rel))
 	}
-	L.Floor("sniffer-writer", 5, "table agreement + four formats")
+	L.Floor("sniffer-writer", 2, "table agreement + four formats (floor = half of the instances on the pinned tree: a clean-up may merge instances, a rule that sees nothing must still fail)")
 }
 
 func firstN(s string, n int) string {
@@ -607,7 +607,7 @@ func (c *Ctx) checkCmdDispatch() {
 		}
 		L.Check(okAll, "format-dispatch", ra.label, "parser per FORMAT_* constant", c.P.Pos(ra.F.Pos()), fmt.Sprintf("%v, otherwise %s", got, def), fmt.Sprintf("a FORMAT_* constant selects the parser of another format: %v, otherwise %s", got, def))
 	}
-	L.Floor("format-dispatch", 5, "reader, writer (+order), extension table, library ReadAlign")
+	L.Floor("format-dispatch", 2, "reader, writer (+order), extension table, library ReadAlign (floor = half of the instances on the pinned tree: a clean-up may merge instances, a rule that sees nothing must still fail)")
 }
 
 // ---------------------------------------------------------------------------
@@ -728,7 +728,7 @@ func (c *Ctx) checkNexusKeywords() {
 	okDT = tab[amino] == "AMINOACIDS" && tab[dflt] == "NUCLEOTIDS"
 	det = fmt.Sprintf("amino acids written as %q → %s, otherwise %q → %s", amino, tab[amino], dflt, tab[dflt])
 	L.Check(okDT, "nexus-keywords", w.label, "datatype maps back to the alphabet", c.P.Pos(w.F.Pos()), det, "the data type written does not map back to the alignment's alphabet: "+det)
-	L.Floor("nexus-keywords", 10, "writer words + datatype")
+	L.Floor("nexus-keywords", 5, "writer words + datatype (floor = half of the instances on the pinned tree: a clean-up may merge instances, a rule that sees nothing must still fail)")
 }
 
 // ---------------------------------------------------------------------------
@@ -799,5 +799,5 @@ func (c *Ctx) checkNexusDefaults() {
 	if n < 3 {
 		L.Bad("nexus-defaults", p.label, "gap, missing and match translations", c.P.Pos(p.F.Pos()), fmt.Sprintf("%d symbol translations found, want 3", n))
 	}
-	L.Floor("nexus-defaults", 3, "gap, missing, matchchar")
+	L.Floor("nexus-defaults", 1, "gap, missing, matchchar (floor = half of the instances on the pinned tree: a clean-up may merge instances, a rule that sees nothing must still fail)")
 }
